@@ -1,4 +1,4 @@
-SPECIFICATION Spec
+SPECIFICATION SpecB
 CONSTANTS
   Modes <- Unchecked
   MaxN = 4
